@@ -82,6 +82,69 @@ def run_threads(root, per_thread, rounds):
     return outs, errors
 
 
+def parked_schedules(res, stats, fc):
+    """forced schedules: one thread is PARKED in the middle of a validation (inside a format checker reached through a property,
+    an array item, propertyNames and contains) for longer than any plausible lock time-out, while other threads validate other values
+    against the same tree to completion; everybody gets what the same call gives alone"""
+    from statham.schema.elements import Object, String, Integer, Array, Element, AnyOf, Null
+    from statham.schema.property import Property
+    entered, release = threading.Event(), threading.Event()
+
+    def park(value):
+        if threading.current_thread().name == "c14-parked":
+            entered.set()
+            release.wait(5.0)
+        return True
+    fc.register("c14-park")(park)
+
+    def build():
+        limits = Object.inline("Limits", properties={"retries": Property(Integer(default=3)), "backoff": Property(Integer(default=2))}, default={"retries": 3})
+        tag = Object.inline("Tag", properties={"label": Property(String(default="misc"))})
+        return Object.inline("Model", properties={
+            "first": Property(String(format="c14-park")), "tags": Property(Array(String(format="c14-park"))),
+            "opt": Property(Integer(default=3)), "mode": Property(String(default="fast")), "limits": Property(limits),
+            "labels": Property(Array(tag, default=[{"label": "x"}])),
+            "any": Property(AnyOf(Array(String(), contains=String(format="c14-park")), Null()))}, propertyNames=String(format="c14-park"))
+    parked_values = [{"first": "a"}, {"tags": ["x", "y"]}, {"any": ["p"]}, {"zz": 1}]
+    other_values = [{"first": "b", "tags": []}, {"opt": 1}, {}, {"tags": ["q"], "limits": {"retries": 1}}, {"first": 1}, {"labels": [{}]}, {"any": None, "mode": "m"}]
+    for pv in parked_values:
+        expect_p = call(build(), copy.deepcopy(pv))[:2]
+        expect_o = [call(build(), copy.deepcopy(v))[:2] for v in other_values]
+        shared = build()
+        entered.clear()
+        release.clear()
+        out_p, outs_o = [], []
+        tp = threading.Thread(name="c14-parked", target=lambda: out_p.append(call(shared, copy.deepcopy(pv))[:2]))
+        tp.start()
+        entered.wait(5.0)
+
+        def others():
+            for _ in range(2):
+                outs_o.append([call(shared, copy.deepcopy(v))[:2] for v in other_values])
+                time.sleep(0.12)
+        workers = [threading.Thread(target=others) for _ in range(3)]
+        for wk in workers:
+            wk.start()
+        for wk in workers:
+            wk.join(30)
+        release.set()
+        tp.join(30)
+        stats["parked_schedules"] = stats.get("parked_schedules", 0) + 1
+        bad = None
+        for got in outs_o:
+            for v, g, e in zip(other_values, got, expect_o):
+                if g != e and bad is None:
+                    bad = "while another thread was parked inside a validation of %r, %r gave %r; alone it gives %r" % (pv, v, g[0] if g[0] != e[0] else g, e[0] if g[0] != e[0] else e)
+        if not out_p or out_p[0] != expect_p:
+            bad = bad or "the parked call on %r gave %r; alone it gives %r" % (pv, out_p[0] if out_p else "nothing (thread died)", expect_p)
+        after = [call(shared, copy.deepcopy(v))[:2] for v in other_values]
+        if after != expect_o and bad is None:
+            bad = "after all threads have finished, the shared model answers %r where a fresh one answers %r" % (after, expect_o)
+        if bad:
+            res.violation({"property": "C14", "kind": "oracle", "schedule": "thread P parks inside the format checker while validating %r; three threads validate %r twice each; P resumes" % (pv, other_values),
+                           "what": bad})
+
+
 def run(tier, seed, replay=None):
     from statham.schema.validation.format import format_checker as fc
     from statham.schema.property import _Property
@@ -114,6 +177,8 @@ def run(tier, seed, replay=None):
             d = dslgen.gen_doc(rng, dslgen.Cfg(max_depth=rng.choice([2, 3])))
             docs.append((d, None))
     try:
+        if not replay:
+            parked_schedules(res, stats, fc)
         fc.register(YIELD_FORMAT)(yielding_format)
         sys.setswitchinterval(1e-6)
         _Property.bind = yielding_bind
